@@ -42,11 +42,30 @@ def run(ctx):
             camp.sh.maybe_flush()
             if i < 3:
                 ctx.sample({"program": prog})
+        # Pointer over another stream (stream=...): the member is processed there, at the target, and that stream is put back
+        import io, construct as cs
+        oprog = {"k": "Opaque", "desc": "Pointer(stream=other)"}
+        for target in (0, 2, 3, -2):
+            want = target if target >= 0 else 8 + target
+            for start in (0, 1, 5):
+                for op in ("parse", "build"):
+                    side = io.BytesIO(b"abcdefgh"); side.seek(start)
+                    con = cs.Struct("h" / cs.Byte, "p" / cs.Pointer(target, cs.Struct("t" / cs.Tell, "b" / cs.Byte), stream=lambda ctx, side=side: side), "n" / cs.Byte)
+                    if op == "parse":
+                        i1, c1 = camp.parse(oprog, con, b"\x01\x02\x03", 0, {})
+                        try:
+                            at = int(V.dec(c1["res"]["v"])["p"]["t"]) if c1["res"]["ok"] else -1
+                        except Exception:
+                            at = -1
+                    else:
+                        i1, c1 = camp.build(oprog, con, {"h": 1, "p": {"b": 0x41}, "n": 2}, b"\xee", {})
+                        at = want if side.getvalue()[want:want + 1] == b"A" else -1
+                    camp.sh.session("C09.alt-stream", [i1], x={"before": start, "after": side.tell(), "at": at, "want": want})
         # spec -> code: every session TLC explores on the look-ahead part of the model's universe (design-level clauses checked there)
         progs, kw, sessions, _ = speccode.explore(ctx, focus="C09", part=speccode.part_of(ctx, 12 if quick else 8))
         speccode.drive(camp, progs, kw, sessions)
         vs = camp.validate()
-        campaign.judge(ctx, camp, vs, conformance=lambda v, m: campaign.kind_of(v) in KINDS and
+        campaign.judge(ctx, camp, vs, clauses=("C09.alt-stream",), conformance=lambda v, m: campaign.kind_of(v) in KINDS and
                        (v["exp"]["k"] in RECOVER or v["got"]["k"] in RECOVER or campaign.kind_of(v).startswith("result:")) and m["case"]["op"] == "parse")
         cvs = campaign.validate_cam(camp)
         campaign.judge_cam(ctx, camp, cvs, ["C09."])
